@@ -149,6 +149,8 @@ class BModel(Core.Model):
         super().__init__(seed=1)
         ambient_logger(self)
         self.style, self.life, self.done = style, life, False
+        if style == 'dt_attr':
+            self.timestep = 0.25      # the model's own attribute of that name (the length of a step, in hours)
         if style == 'nested_batch':
             # the model calibrates itself with a nested, serial batch of sub-models before its own run starts
             self.inner = Batching.batch_run(InnerB, {'k': [1, 2]}, collectors='ci', processes=1, max_timesteps=30)
@@ -395,7 +397,7 @@ def extra_cases():
                     yield {'leg': 'sources', 'grid': gname, 'reps': reps, 'life': 2, 'limit': None, 'collectors': 'c0',
                            'procs': procs, 'outcome': oc, 'source': src}
     # models that finish by their own criterion (is_running overridden) / whose clock jumps ahead (event-driven)
-    for style in ('own_done', 'jump', 'own_execute', 'nested_batch', 'dict_records', 'rebinding'):
+    for style in ('own_done', 'jump', 'own_execute', 'nested_batch', 'dict_records', 'rebinding', 'dt_attr'):
         for life, limit in ((3, None), (3, 2), (3, 3), (3, 7), (6, 2), (6, 3), (6, 4), (6, 5), (2, None), (1, 3), (9, 4)):
             for coll in ('c0', 'list'):
                 for procs, oc in ((1, None), (2, [[[0], [1]], [1, 0]])):
